@@ -236,6 +236,80 @@ let minigo_line l =
     | _ -> 0) in
   print_endline (head ^ " | " ^ str_ints runs)
 
+(* keys case (site identity, model M3): objects, keys, then steps -- 0: a view (analysing package, believed position of
+   every object, visible facts), 1: a fact published from a view (the sites of the listed keys), 2: queries.
+   Grammar in checks/keys_suite.py.  Prints, per query, the rendered key and the site the model computes. *)
+let keys_line l =
+  let a = Array.of_list (ints_of_line l) in
+  let pos = ref 0 in
+  let next () = let v = a.(!pos) in incr pos; v in
+  let nat = nat_of_int in
+  let opt v = if v < 0 then None else Some (nat v) in
+  let no = next () in
+  let objs = Array.init no (fun i ->
+    let pkg = next () in let name = next () in let ex = next () in let pa = next () in
+    { o_id = nat i; o_pkg = nat pkg; o_name = nat name; o_exported = (ex = 1); o_path = opt pa }) in
+  let nk = next () in
+  let keys = Array.init nk (fun _ ->
+    let kind = next () in let ob = next () in let num = next () in let pn = next () in let fld = next () in
+    let recv = next () in let lf = next () in let ll = next () in let lc = next () in let isr = next () in let tr = next () in
+    let o = objs.(ob) in
+    let loc = ((nat lf, nat ll), nat lc) in
+    match kind with
+    | 1 -> KField o
+    | 2 -> KCallSiteParam (o, nat num, opt pn, loc)
+    | 3 -> KParam (o, nat num, opt pn)
+    | 4 -> KCallSiteRet (o, nat num, loc)
+    | 5 -> KRet (o, nat num)
+    | 6 -> KTypeName o
+    | 7 -> KGlobalVar o
+    | 8 -> KLocalVar o
+    | 9 -> KRetField (o, nat num, objs.(fld), opt recv)
+    | 10 -> KEscapeField o
+    | 11 -> KParamField (o, nat num, opt pn, objs.(fld), isr = 1, tr = 1)
+    | _ -> KRecv o) in
+  let views = ref [||] and facts = ref [||] in
+  let out = Buffer.create 256 in
+  let tok = function
+    | TNum n -> Printf.sprintf "n%d" (int_of_nat n)
+    | TName s -> Printf.sprintf "s%d" (int_of_nat s)
+    | TNoName -> "-"
+    | TLoc ((f, l), c) -> Printf.sprintf "L%d:%d:%d" (int_of_nat f) (int_of_nat l) (int_of_nat c)
+    | TBool b -> if b then "b1" else "b0" in
+  let queries () =
+    let n = next () in
+    List.init n (fun _ -> let k = next () in let d = next () in (keys.(k), d = 1)) in
+  let ns = next () in
+  for _ = 1 to ns do
+    match next () with
+    | 0 ->
+      let apkg = next () in
+      let parr = Array.init no (fun _ -> let f = next () in let o = next () in (nat f, nat o)) in
+      let nv = next () in
+      let vis = List.init nv (fun _ -> next ()) in
+      (* the position cache is a Go map filled in fact order: the last entry for a key wins *)
+      let up = List.rev (List.concat (List.map (fun j -> (!facts).(j)) vis)) in
+      let v = { v_pkg = nat apkg; v_pos = (fun o -> parr.(int_of_nat o.o_id)); v_upstream = up } in
+      views := Array.append !views [| v |]
+    | 1 ->
+      let v = (!views).(next ()) in
+      let qs = queries () in
+      let entries = List.concat (List.map (fun (k, d) ->
+        let s = site_of v k d in
+        match s.s_path with Some pa -> [ ((s.s_pkg, pa), s.s_pos) ] | None -> []) qs) in
+      facts := Array.append !facts [| entries |]
+    | _ ->
+      let v = (!views).(next ()) in
+      List.iter (fun (k, d) ->
+        let s = site_of v k d in
+        let (tag, toks) = key_repr k in
+        let (f, o) = s.s_pos in
+        Buffer.add_string out (Printf.sprintf " ;; %d:%s ## %d|%d|%d|%b|%b|%s" (int_of_nat tag) (String.concat "," (List.map tok toks))
+          (int_of_nat f) (int_of_nat o) (int_of_nat s.s_pkg) s.s_deep s.s_exported
+          (match s.s_path with Some p -> string_of_int (int_of_nat p) | None -> "-"))) (queries ())
+  done;
+  print_endline (Buffer.contents out)
+
 let () =
   let mode = if Array.length Sys.argv > 1 then Sys.argv.(1) else "engine" in
   try
@@ -249,6 +323,7 @@ let () =
          | "scope" -> scope_line l
          | "paths" -> paths_line l
          | "minigo" -> minigo_line l
+         | "keys" -> keys_line l
          | _ -> failwith "unknown mode")
     done
   with End_of_file -> ()
